@@ -3,25 +3,9 @@
     form (everything keyed by hash is sorted), plus the case runner used by the correspondence
     check.  No proofs here. *)
 From Coq Require Import List NArith Bool String.
-From GV Require Import Base.Ints Gen.Math Gen.Kernel Model.Mirror.
+From GV Require Import Base.Ints Base.Tr Gen.Math Gen.Kernel Model.Mirror.
 Import ListNotations.
 Local Open Scope N_scope.
-
-Inductive tr := TN (n : N) | TB (b : bytes) | TL (l : list tr).
-
-Fixpoint tr_eqb (a b : tr) : bool :=
-  match a, b with
-  | TN x, TN y => x =? y
-  | TB x, TB y => bytes_eqb x y
-  | TL x, TL y =>
-      (fix go (l1 l2 : list tr) : bool :=
-         match l1, l2 with
-         | [], [] => true
-         | p :: l1', q :: l2' => tr_eqb p q && go l1' l2'
-         | _, _ => false
-         end) x y
-  | _, _ => false
-  end.
 
 Definition tr_sig (s : sigd) : tr :=
   match s with
@@ -60,6 +44,7 @@ Definition tr_sum (s : summary) : tr :=
 
 Definition tr_view (v : view) : tr :=
   TL [TN (v_h v); TN (v_r v); TB (vs_pkh (v_vals v)); TB (vs_vph (v_vals v));
+      TL (map TN (vs_keys (v_vals v))); TL (map TN (vs_pows (v_vals v)));
       TL (map TB (sort_b (map (fun p => hd_hash (ph_hdr p)) (v_phs v))));
       tr_pmap (v_pv v); tr_pmap (v_pc v); tr_sum (v_sum v); tr_cproof (v_pcp v)].
 
@@ -86,7 +71,9 @@ Fixpoint insert_hd (x : N * (hdr * cproof)) (l : list (N * (hdr * cproof))) :=
   end.
 Definition tr_hdrs (l : list (N * (hdr * cproof))) : tr :=
   TL (map (fun x => TL [TN (fst x); TB (hd_hash (fst (snd x))); TB (hd_prev (fst (snd x)));
-                        TB (vs_pkh (hd_next (fst (snd x)))); tr_cproof (snd (snd x))])
+                        TB (vs_pkh (hd_next (fst (snd x)))); TB (vs_vph (hd_next (fst (snd x))));
+                        TL (map TN (vs_keys (hd_next (fst (snd x))))); TL (map TN (vs_pows (hd_next (fst (snd x)))));
+                        tr_cproof (snd (snd x))])
           (fold_right insert_hd [] l)).
 
 Definition observe (s : kstate) : tr :=
@@ -116,4 +103,34 @@ Fixpoint run_states (s : kstate) (ops : list op) : list kstate :=
                  | Ok (s', _) => s' :: run_states s' rest
                  | Panic _ => []
                  end
+  end.
+
+(** C05 no-op clause on an implementation trace: whenever the message is all-invalid with respect
+    to the state the model is in, the implementation must not report it accepted/verified and its
+    observation must equal the previous one.  Returns the index of the first offending step. *)
+Fixpoint noop_trace_bad (i : nat) (s : kstate) (prev : tr) (steps : list (op * N * tr)) : option nat :=
+  match steps with
+  | [] => None
+  | (o, r, ob) :: rest =>
+      let bad :=
+        match o with
+        | OpPrevote m => msg_all_invalid (keys_for s m) KPrevote m &&
+                         ((r =? HandleVoteProofsAccepted) || (r =? HandleVoteProofsFutureVerified) || negb (tr_eqb ob prev))
+        | OpPrecommit m => msg_all_invalid (keys_for s m) KPrecommit m &&
+                         ((r =? HandleVoteProofsAccepted) || (r =? HandleVoteProofsFutureVerified) || negb (tr_eqb ob prev))
+        | OpPH _ => false
+        end in
+      if bad then Some i else
+      match step s o with
+      | Ok (s', _) => noop_trace_bad (S i) s' ob rest
+      | Panic _ => None
+      end
+  end.
+
+Definition obs_of (steps : list (op * N * tr)) : list tr := map (fun x => snd x) steps.
+
+Fixpoint first_bad (f : tr -> bool) (i : nat) (l : list tr) : option nat :=
+  match l with
+  | [] => None
+  | o :: rest => if f o then first_bad f (S i) rest else Some i
   end.
